@@ -69,7 +69,7 @@ package ocsp
 //@   props C19
 //@   requires c != nil
 //@   assigns *c
-//@   ensures err == nil && c.ocspConfig == ocspConfig && c.logger == logger
+//@   ensures err == nil && c.ocspConfig == ocspConfig && c.logger == logger && c != nil
 //@ func OCSPRevocationChecker.Cleanup
 //@   props C20
 //@   requires c != nil
